@@ -128,7 +128,7 @@ def file2lines(loc: Union[Path, str]) -> List[List[int]]:
     return [[parse_num(x) for x in line.split()] for line in lines]
 
 
-def write_one(args, where=None):
+def write_one(args, where=None, width=4):
     id, instance = args
     assert (
         len(instance["proc_times"].shape) == 2
@@ -164,7 +164,7 @@ def write_one(args, where=None):
 
     formatted = "\n".join(lines)
 
-    file_name = f"{str(id+1).rjust(4, '0')}_{num_jobs}j_{num_machines}m.txt"
+    file_name = f"{str(id+1).rjust(width, '0')}_{num_jobs}j_{num_machines}m.txt"
     full_path = os.path.join(where, file_name)
 
     with open(full_path, "w") as fh:
@@ -177,4 +177,8 @@ def write(where: Union[Path, str], instances: TensorDict):
     if not os.path.exists(where):
         os.makedirs(where)
 
-    return list(map(partial(write_one, where=where), enumerate(iter(instances))))
+    # the readers list the directory with sorted(): pad the index so that every file name of this set has the same width
+    width = max(4, len(str(len(instances))))
+    return list(
+        map(partial(write_one, where=where, width=width), enumerate(iter(instances)))
+    )
